@@ -38,6 +38,7 @@ pub fn history(seed: u64, check: &str, case: u64, opts: Opts, trace: bool, max_s
                 w.drop_random_esp();
                 Ok(())
             }
+            19..=20 if w.opts.panics => w.panic_txn(),
             15..=18 => {
                 if w.readers.len() < 3 {
                     w.open_reader()
@@ -92,7 +93,11 @@ pub fn run(rep: &Report) {
 fn one_case(rep: &Report, case: u64, budget: &CrashBudget, depth: u32, max_steps: usize, rec_every: u64, rec_cap: usize) {
     let replay = json!({"check": "C01", "seed": rep.seed, "case": case, "tier": rep.tier.name()});
     let trace = rep.replay_only.is_some() || rep.want_sample();
-    let h = match history(rep.seed, "C01", case, Opts::default(), trace, max_steps) {
+    let mut opts = Opts::default();
+    // an application panic caught while a write transaction is live latches a pending repair:
+    // a clean close must still persist what was committed (fixed defect, see known_findings.json)
+    opts.panics = true;
+    let h = match history(rep.seed, "C01", case, opts, trace, max_steps) {
         Ok(h) => h,
         Err(e) => {
             rep.violation("create-failed", format!("case {case}: {e}"), replay);
